@@ -147,6 +147,10 @@ Inductive case :=
    the one the user's terms denote (x*x = x, s*s = 1, equal monomials under any key order added,
    a single-variable key of J added to h) *)
 | CEntryPoly (spin : bool) (raw received : hpoly)
+(* post-condition against the user's RAW terms (keys may repeat a variable): a variable that cancels
+   inside every term it occurs in (s*s = 1) is not a column; the energy does not depend on it and is
+   evaluated with the in-domain value 1 for it *)
+| CPostRaw (raw : hpoly) (vars : list (label * vdom)) (res : result)
 (* PolyScaleComposite raises ZeroDivisionError exactly when the model says so *)
 | CScaleRaise (scalar : option Qc) (bias_range : prange) (poly_range : option prange) (raised : bool)
 | CStruct (nodes : list label) (edges : list (label * label)) (vars : list label) (quad : list (label * label))
@@ -263,6 +267,9 @@ Definition check (c : case) : bool :=
       check_identity g num_reads (prob_energy pr) vars ls conv init seen
   | CEntry n qubo h J observed =>
       poly_coeff_eqb n (if qubo then from_qubo J else ising_poly h J) observed
+  | CPostRaw raw vars res =>
+      let ls := r_labels res in
+      post (fun s => henergy raw (fun v => if mem_nat v (map fst vars) then s v else 1)) vars res
   | CEntryPoly spin raw received =>
       hpoly_eqb (map (fun t => (if spin then spin_reduce_vars (fst t) else binary_reduce_vars (fst t), snd t)) raw)
                 received
